@@ -36,8 +36,10 @@ func (ol OptionCodeList) sort() {
 // String returns a human-readable string for the option names.
 func (ol OptionCodeList) String() string {
 	var names []string
-	ol.sort()
-	for _, code := range ol {
+	// sort a copy: printing must not reorder the caller's list
+	sorted := append(OptionCodeList(nil), ol...)
+	sorted.sort()
+	for _, code := range sorted {
 		names = append(names, code.String())
 	}
 	return strings.Join(names, ", ")
